@@ -260,6 +260,15 @@ func (ex *Exec) protoCopy(t types.Type, v Value, key *strings.Builder, decode bo
 			return Slice{}
 		}
 		c := s.len
+		if decode && !isBytes {
+			// the decoder grows repeated fields by appending one element at a time
+			c = 0
+			for n := 1; n <= s.len; n++ {
+				if n > c {
+					c = growCap(c, n, ex.P.sizeof(u.Elem()))
+				}
+			}
+		}
 		if decode && isBytes {
 			c = int(roundupsize(int64(s.len), true))
 			if c == 0 {
